@@ -1,11 +1,15 @@
 #!/bin/sh
-# usage: tools/try_seed.sh <seeded dir> <Cxx> [more Cyy ...]  — applies patch.diff to /repo, runs the quick checks under SEEDS, reverts
+# usage: tools/try_seed.sh <seeded dir> <Cxx> [more Cyy ...]  — applies patch.diff to a SCRATCH worktree of /repo (so that /repo itself
+# stays untouched while other checks run against it), runs the quick checks against that worktree under SEEDS, removes it.
+# (The registered commands always run against /repo; SYNAPGRAD_REPO only redirects them for this experiment.)
 set -u
 d=$1; shift
-keep=$(mktemp -d /tmp/evidence.keep.XXXXXX); cp -r evidence/. "$keep"/; trap 'cp -r "$keep"/. evidence/; rm -rf "$keep"; git -C /repo checkout -- . 2>/dev/null; git checkout -- lean/SynapModel/Generated 2>/dev/null' EXIT
-git -C /repo apply "$d/patch.diff" || { echo "patch does not apply"; exit 2; }
+wt=$(mktemp -d /tmp/seedwt.XXXXXX); rmdir "$wt"
+git -C /repo worktree add -q --detach "$wt" HEAD || exit 2
+keep=$(mktemp -d /tmp/evidence.keep.XXXXXX); cp -r evidence/. "$keep"/
+trap 'cp -r "$keep"/. evidence/; rm -rf "$keep"; git -C /repo worktree remove --force "$wt" 2>/dev/null; git checkout -- lean/SynapModel/Generated 2>/dev/null' EXIT
+git -C "$wt" apply "$d/patch.diff" || { echo "patch does not apply"; exit 2; }
 for p in "$@"; do for s in ${SEEDS:-0}; do
-  out=$(VERIF_SEED=$s ./check "$p" --tier ${TIER:-quick} 2>&1); rc=$?
+  out=$(SYNAPGRAD_REPO="$wt" VERIF_SEED=$s ./check "$p" --tier ${TIER:-quick} 2>&1); rc=$?
   echo "rc=$rc seed=$s $(echo "$out" | grep -c '^VIOLATION') violation line(s): $(echo "$out" | tail -1)"
 done; done
-git -C /repo checkout -- . ; git -C /repo status --short | head -3
